@@ -386,10 +386,10 @@ def sec_halfpel():
     rel = "h263/src/types.rs"
     src = strip_comments(read(rel))
     for name in ("STANDARD_RANGE", "EXTENDED_RANGE", "EXTENDED_RANGE_QUADCIF", "EXTENDED_RANGE_SIXTEENCIF", "EXTENDED_RANGE_BEYONDCIF"):
-        m = re.search(r"pub\s+const\s+" + name + r"\s*:\s*Self\s*=\s*Self\((\d+)\)\s*;", src)
+        m = re.search(r"pub\s+const\s+" + name + r"\s*:\s*(?:Self|HalfPel)\s*=\s*(?:Self|HalfPel)\(\s*(\w+)\s*\)\s*;", src)
         if not m:
             raise TranslateError(f"{rel}: HalfPel::{name} not found")
-        w(f"def HP_{name} : Int := {m.group(1)}")
+        w(f"def HP_{name} : Int := {rust_int(m.group(1))}")
     m = re.search(r"fn\s+invert\b.*?Ordering::Greater\s*=>\s*Self\(self\.0\s*-\s*(\d+)\).*?Ordering::Less\s*=>\s*Self\(self\.0\s*\+\s*(\d+)\)", src, re.S)
     if not m:
         raise TranslateError(f"{rel}: HalfPel::invert constants not found")
